@@ -48,6 +48,12 @@ def pypi(r):
         s += r.choice([".dev", "dev", "-dev"]) + r.choice(["", "0", "1", "3"])
     if r.random() < 0.1:
         s += "+" + r.choice(["local", "1", "abc.1", "ubuntu-1", "001"])
+    # PEP 440: "all ascii letters should be interpreted case insensitively"; a leading v is allowed
+    k = r.random()
+    if k < 0.12:
+        s = s.upper()
+    elif k < 0.2:
+        s = "".join(c.upper() if r.random() < 0.5 else c for c in s)
     return s
 
 
